@@ -879,6 +879,8 @@ class InterpExpr:
                     return self.module_name(sm, name)
         if name in self.ct.classes and modname.startswith('contracts'):
             return ClassV(name)
+        if modname.startswith('contracts') and name in self.reg.spec_funcs:
+            return FuncV(self.reg.spec_funcs[name])    # helper predicate of another contract file
         if modname.startswith('contracts'):
             # contract files may name enums / constants of any repo module without importing them
             for mn, m2 in self.ct.modules.items():
